@@ -13,10 +13,21 @@ MODES = ["DISABLED", "TASK", "ARGUMENTS", "KEYS"]
 PLAN: dict = {}          # invocation id -> "ok" | "retry" (consulted by the parked body when it resumes)
 
 
+NESTED_REQ: dict = {}    # running invocation id -> (task object, a, b): a submission to make from INSIDE its body
+NESTED_OUT: dict = {}    # running invocation id -> the invocation (or exception) that submission produced
+
+
 def cc_body(a: int, b: int) -> int:
     i = tasks_conc._inv_id()
     tasks_conc.BODY_LOG.append(("enter", i))
     tasks_conc._yield("body")
+    while i in NESTED_REQ:
+        t, x, y = NESTED_REQ.pop(i)
+        try:
+            NESTED_OUT[i] = t(x, y)
+        except Exception as ex:  # noqa: BLE001
+            NESTED_OUT[i] = ex
+        tasks_conc._yield("body")
     tasks_conc.BODY_LOG.append(("exit", i))
     if PLAN.get(i) == "retry":
         PLAN[i] = "ok"
@@ -64,9 +75,11 @@ def model_expr(cfgs, ops, facts="batch_path_indexes_args single_path_indexes_arg
 
 
 class Runner:
-    def __init__(self, kind: str, scratch: str, cfgs: list[dict]):
+    def __init__(self, kind: str, scratch: str, cfgs: list[dict], **conf):
         from pynenc.conf.config_task import ConcurrencyControlType as CT
-        self.w = D.World(kind, scratch)
+        self.w = D.World(kind, scratch, **conf)
+        NESTED_REQ.clear()
+        NESTED_OUT.clear()
         self.app = self.w.app
         self.kind = kind
         self.cfgs = cfgs
@@ -82,6 +95,12 @@ class Runner:
         self.actors: dict[str, S.Actor] = {}
         self.owner: dict[str, str] = {}
         S.Sched.current = self.s
+
+    def _st(self, inv_id):
+        try:
+            return self.w.status(inv_id)[0]
+        except KeyError:
+            return "PURGED"
 
     def idx(self, inv_id) -> int:
         if inv_id not in self.ids:
@@ -141,7 +160,7 @@ class Runner:
                 popped.append(x)
                 return x
             app.broker.retrieve_invocation = limited
-            before = {i: self.w.status(i)[0] for i in self.ids}
+            before = {i: self._st(i) for i in self.ids}
             n0 = len(self.w.tlog)
             try:
                 got = [inv.invocation_id for inv in app.orchestrator.get_invocations_to_run(1, world.runner_ctx(r))]
@@ -159,16 +178,43 @@ class Runner:
             if got:
                 self.owner[got[0]] = r
                 return [5, self.idx(got[0])]
-            after = self.w.status(str(pid))[0]
+            after = self._st(str(pid))
             if after == "CONCURRENCY_CONTROLLED_FINAL" and before.get(str(pid)) != after:
                 return [6, i]
             if after == "REROUTED" and any(x[0] == str(pid) and x[1] == "CONCURRENCY_CONTROLLED" and x[3] for x in self.w.tlog[n0:]):
                 return [7, i]
             return [8, 0]
+        if k == "autopurge":
+            # every final invocation is due (the app is built with auto_final_invocation_purge_hours=0)
+            app.orchestrator.auto_purge()
+            return [11, 0]
         inv_id = self.ids[o[1]] if o[1] < len(self.ids) else None
         if inv_id is None:
             return [12, 0]
-        st, own = self.w.status(inv_id)
+        try:
+            st, own = self.w.status(inv_id)
+        except KeyError:
+            return [12, 0]
+        if k == "nested":
+            # a submission made from inside the body of a RUNNING invocation (the child gets it as parent)
+            a_ = self.actors.get(inv_id)
+            if st != "RUNNING" or a_ is None or a_.state == "done":
+                return [12, 0]
+            NESTED_REQ[inv_id] = (self.tasks[o[2]], o[3][0], o[3][1])
+            for _ in range(10000):                      # resume the parked body until it parks again after the submission
+                if a_.state == "done" or (inv_id in NESTED_OUT and a_.state == "ready" and a_.label == "body"):
+                    break
+                if a_.state == "blocked" and not (a_.pred and a_.pred()):
+                    break
+                self.s.step(a_)
+            out = NESTED_OUT.pop(inv_id, None)
+            if isinstance(out, InvocationConcurrencyWithDifferentArgumentsError):
+                return [2, 0]
+            if out is None or isinstance(out, BaseException):
+                return [12, 0]
+            known = out.invocation_id in self.ids
+            i = self.idx(out.invocation_id)
+            return [1, i] if (isinstance(out, ReusedInvocation) or known) else [0, i]
         if k == "start":
             if st != "PENDING":
                 return [12, 0]
@@ -200,7 +246,12 @@ class Runner:
 
     def observe(self):
         from harness.translate.status_table import STATUSES
-        sts = [STATUSES.index(self.w.status(i)[0]) for i in self.ids]
+        def code(i):
+            try:
+                return STATUSES.index(self.w.status(i)[0])
+            except KeyError:
+                return 99                      # purged
+        sts = [code(i) for i in self.ids]
         q = [self.ids.index(x) for x in self.w.queue() if x in self.ids]
         return sts, q
 
